@@ -23,6 +23,7 @@ extern "C" {
 /* ---- scheduling ---- */
 void mc_point (void);   /* scheduling point; leaving the fiber here costs a preemption */
 void mc_yield (void);   /* scheduling point; leaving the fiber here is free (voluntary) */
+void mc_handoff (int fiber); /* like mc_yield, and the named fiber (if enabled) is the default choice of the next decision */
 int  mc_self (void);    /* index of the running fiber, -1 during init */
 
 /* Client-level choreography: a flag written with mc_flag_set (release) and
